@@ -156,7 +156,12 @@ impl Check for Refactor {
         let mut rep = CaseReport::new(case);
         let mut rng = Rng::for_case(seed, "refactor", case);
         let sub = rng.chance(1, 2);
-        let lib = refactor_lib(&mut rng, tier, sub);
+        let mut lib = refactor_lib(&mut rng, tier, sub);
+        if self.prop == "C10" && case % 4 == 0 {
+            // runs of adjacent lists of alternating kinds: changing the type of an inner one makes three (or four)
+            // neighbours of one kind, which only stay apart if their markers keep alternating
+            lib.insert("adjacent-lists".into(), "# Adjacent\n\n- first one\n- first two\n\n1.  middle one\n2.  middle two\n\n- last one\n\n1.  tail one\n\ntext after\n".into());
+        }
         // hook H2: the invariant walker sees every graph the handlers build (patch graphs included)
         crate::hooks::install_graph_hook();
         crate::hooks::graph_hook_reset();
